@@ -440,6 +440,60 @@ pub fn run(ctx: &Ctx) -> i32 {
             ctx.outcome(hash64(&(pi, bad.load(std::sync::atomic::Ordering::Relaxed))));
         }
     }
+    // ---- one mapper shared by several threads: every interleaving of its own synchronisation operations
+    if ctx.wants_family("mapper-schedules") {
+        let fam = "mapper-schedules";
+        let sx = crate::root().join("target/sx");
+        let status = std::fs::read_to_string(sx.join("status")).unwrap_or_else(|_| "unavailable: not built (run through ./check)".into());
+        let bin = crate::root().join("target/checked/mc-sx");
+        if status.trim() != "ok" || !bin.is_file() {
+            ctx.assume(format!("mapper-schedules NOT explored in this run: the shuttle-instrumented copy of the library could not be built ({})", status.trim()));
+        } else {
+            let mut cmd = std::process::Command::new(&bin);
+            cmd.arg(if thorough { "thorough" } else { "quick" }).arg("--mapper");
+            if let Some((f, c)) = &ctx.only {
+                if f == fam {
+                    cmd.arg("--case").arg(c);
+                }
+            }
+            let out = match cmd.stderr(std::process::Stdio::null()).output() {
+                Ok(o) => o,
+                Err(e) => {
+                    eprintln!("machinery error: cannot run {}: {}", bin.display(), e);
+                    std::process::exit(2);
+                }
+            };
+            let text = String::from_utf8_lossy(&out.stdout);
+            let (mut schedules, mut configs, mut capped, mut skipped, mut done) = (0u64, 0u64, 0u64, 0u64, false);
+            for l in text.lines() {
+                let Ok(j) = serde_json::from_str::<serde_json::Value>(l) else { continue };
+                if j.get("done").is_some() {
+                    done = true;
+                    continue;
+                }
+                if j.get("skipped").is_some() {
+                    skipped += 1;
+                    continue;
+                }
+                configs += 1;
+                let n = j["schedules"].as_u64().unwrap_or(0);
+                schedules += n;
+                if j["capped"].as_bool().unwrap_or(false) {
+                    capped += 1;
+                }
+                ctx.eval_n(n, n * j["calls"].as_u64().unwrap_or(1));
+                ctx.outcome(hash64(&(j["threads"].as_u64(), n)));
+                if let Some(b) = j["bad"].as_str() {
+                    ctx.violation(Violation { family: fam.into(), case: j["case"].as_str().unwrap_or("").to_string(), sig: "schedule-dependent(sync):mapper".into(), detail: b.to_string(), bytes: None, extra: json!({"schedules_until_failure": n}) });
+                }
+            }
+            if !done {
+                eprintln!("machinery error: mc-sx --mapper did not finish (exit {:?})", out.status.code());
+                std::process::exit(2);
+            }
+            ctx.family(fam, schedules, &format!("shuttle check_dfs (exhaustive) over {} thread configurations against the shuttle-instrumented copy of the library: one PaletteMapper shared by 2 threads x 2 lookups (all 625 colour assignments over 4 palette colours and one absent colour) and by 3 threads x 1 lookup (125); every lookup compared with the same lookup on a mapper of its own; {} configurations hit the cap, {} skipped after 12 failing ones", configs, capped, skipped), capped == 0 && skipped == 0);
+        }
+    }
     ctx.note("built with asefile's `utils` feature on; the repository's own suite runs with it off (MANIFEST.hooks.baseline_off_cmd)");
     ctx.finish()
 }
